@@ -854,3 +854,12 @@ def skip_obligations(ctx):
            "constant (which H3 obliges the writers to refuse); no entry is left out for its guessed type, mode or size")
 def h6(ctx):
     return skip_obligations(ctx)
+
+
+@rule("C01", "H7", floor=2, kind="N",
+      desc="a path that was never written answers 404: the metadata file is hidden by comparing the DECODED entry name "
+           "with CONFIG_FILENAME in every branch of both _iterblobs (same obligations as C16/L2) - a bytes/str comparison "
+           "is never true, and `.xandikos` is listed and served as a member")
+def h7(ctx):
+    from .c16 import l2
+    return l2(ctx)
